@@ -21,6 +21,25 @@ pub struct TgObs {
     pub outs: Vec<sets::Outcome>,
     pub gen: Obs<Vec<String>>,
     pub paths: Vec<Obs<Vec<String>>>,
+    pub syn_ok: bool,
+    pub upcasts: Vec<(u32, Option<usize>, Obs<Vec<String>>)>,
+}
+
+/// standalone struct built through the public API from a field list (C18)
+fn upcast_tokens(
+    g: &TypeGenerator,
+    settings: &scale_typegen::TypeGeneratorSettings,
+    name: &str,
+    fields: &[scale_info::Field<scale_info::form::PortableForm>],
+    docs: &[String],
+) -> Result<Vec<String>, scale_typegen::TypegenError> {
+    use scale_typegen::typegen::ir::type_ir::CompositeIR;
+    use scale_typegen::typegen::type_params::TypeParameters;
+    let ident = syn::parse_str::<proc_macro2::Ident>(name)?;
+    let mut tp = TypeParameters::from_scale_info(&[]);
+    let kind = g.create_composite_ir_kind(fields, &mut tp)?;
+    let c = CompositeIR::new(ident, kind, g.docs_from_scale_info(docs));
+    Ok(flatten(g.upcast_composite(&c).to_token_stream(settings)))
 }
 
 pub fn observe_tg(reg: &PortableRegistry, spec: &SettingsSpec) -> TgObs {
@@ -38,17 +57,63 @@ pub fn observe_tg(reg: &PortableRegistry, spec: &SettingsSpec) -> TgObs {
             Ok(flatten(p.to_token_stream(&settings)))
         }));
     }
-    TgObs { outs, gen, paths }
+    let mut syn_ok = true;
+    let gen_ts = std::panic::catch_unwind(|| {
+        let g = TypeGenerator::new(reg, &settings);
+        g.generate_types_mod().ok().map(|m| m.to_token_stream(&settings))
+    });
+    if let Ok(Some(ts)) = gen_ts {
+        syn_ok = syn::parse2::<syn::File>(ts).is_ok();
+    }
+    let mut upcasts = vec![];
+    for (pos, t) in reg.types.iter().enumerate() {
+        let ty = &t.ty;
+        let pos = pos as u32; // the model resolves by position
+        if ty.path.segments.len() < 2 || ty.type_params.iter().any(|p| p.ty.is_some()) {
+            continue;
+        }
+        match &ty.type_def {
+            TypeDef::Composite(c) => {
+                let name = ty.path.segments.last().unwrap().clone();
+                upcasts.push((pos, None, observe(|| {
+                    let g = TypeGenerator::new(reg, &settings);
+                    upcast_tokens(&g, &settings, &name, &c.fields, &ty.docs)
+                })));
+            }
+            TypeDef::Variant(v) => {
+                for (vi, var) in v.variants.iter().enumerate() {
+                    upcasts.push((pos, Some(vi), observe(|| {
+                        let g = TypeGenerator::new(reg, &settings);
+                        upcast_tokens(&g, &settings, &var.name, &var.fields, &var.docs)
+                    })));
+                }
+            }
+            _ => {}
+        }
+    }
+    TgObs { outs, gen, paths, syn_ok, upcasts }
 }
 
-pub fn coq_case(reg: &PortableRegistry, spec: &SettingsSpec, o: &TgObs) -> String {
+pub fn coq_case(tag: &str, reg: &PortableRegistry, spec: &SettingsSpec, o: &TgObs, expect: &Option<(String, Vec<u128>)>) -> String {
     format!(
-        "(mk_tg {} {} {} {} {})",
+        "(mk_tg {} {} {} {} {} {} {} {} {})",
+        crate::coq::cstr(tag),
         crate::regprint::registry(reg),
         sets::cspec(spec),
         sets::coutcomes(&o.outs),
         o.gen.coq(|t| ctokens(t)),
-        clist(o.paths.iter().map(|p| p.coq(|t| ctokens(t))))
+        clist(o.paths.iter().map(|p| p.coq(|t| ctokens(t)))),
+        crate::coq::cbool(o.syn_ok),
+        clist(o.upcasts.iter().map(|(id, vi, ob)| format!(
+            "({}, {}, {})",
+            crate::coq::cn(*id as u128),
+            crate::coq::copt(vi.map(|v| crate::coq::cn(v as u128))),
+            ob.coq(|t| ctokens(t))
+        ))),
+        match expect {
+            None => "None".to_string(),
+            Some((k, n)) => format!("(Some ({}, {}))", crate::coq::cstr(k), clist(n.iter().map(|x| crate::coq::cn(*x)))),
+        }
     )
 }
 
@@ -206,9 +271,9 @@ pub struct Ctx {
 }
 
 impl Ctx {
-    pub fn new(prop: &str, out: &Path, nshards: usize, evals: &[(&str, &str)]) -> Self {
+    pub fn new(prop: &str, out: &Path, nshards: usize, evals: &[(&str, &str)], pair: bool) -> Self {
         Ctx {
-            shards: Shards::new(out, nshards, HEADER, "tg_case", evals),
+            shards: Shards::new(out, nshards, HEADER, if pair { "tg_pair" } else { "tg_case" }, evals),
             meta: Meta::new(prop),
             seen: HashSet::new(),
             nontrivial: 0,
@@ -223,8 +288,13 @@ impl Ctx {
     }
 
     pub fn push_reg(&mut self, stream: &str, reg: &PortableRegistry, regjson: Option<&Value>, spec: &SettingsSpec) {
+        self.push_full(stream, reg, regjson, spec, None);
+    }
+
+    pub fn push_full(&mut self, stream: &str, reg: &PortableRegistry, regjson: Option<&Value>, spec: &SettingsSpec,
+                     expect: Option<(String, Vec<u128>)>) {
         let o = observe_tg(reg, spec);
-        let term = coq_case(reg, spec, &o);
+        let term = coq_case(stream, reg, spec, &o, &expect);
         let n = reg.types.len();
         self.sizes[match n { 0..=3 => 0, 4..=10 => 1, 11..=30 => 2, 31..=100 => 3, _ => 4 }] += 1;
         *self.kinds.entry(o.gen.kind()).or_insert(0) += 1;
@@ -235,12 +305,47 @@ impl Ctx {
             self.nontrivial += 1;
         }
         let small = n <= 12;
-        let input = json!({"registry": rj, "settings": spec});
+        let input = json!({"registry": rj, "settings": spec, "expect": expect.as_ref().map(|(k, n)| json!({"kind": k, "nums": n.iter().map(|x| *x as u64).collect::<Vec<_>>()}))});
         let j = if small {
             json!({"stream": stream, "input": input, "observed_generate": o.gen.json(|t| json!(t.join(" "))),
                    "observed_paths": o.paths.iter().map(|p| p.json(|t| json!(t.join(" ")))).collect::<Vec<_>>()})
         } else {
             json!({"stream": stream, "input": input, "observed_generate_kind": o.gen.kind()})
+        };
+        let i = self.shards.push(term, j.clone());
+        self.meta.count(stream);
+        if small && self.meta.samples.len() < 3 && i % 37 == 5 {
+            self.meta.samples.push(j);
+        }
+    }
+
+    /// two related runs (C06 / C09 / C17)
+    pub fn push_pair(&mut self, stream: &str, kind: &str,
+                     a: (&PortableRegistry, &SettingsSpec), b: (&PortableRegistry, &SettingsSpec)) {
+        let oa = observe_tg(a.0, a.1);
+        let ob = observe_tg(b.0, b.1);
+        let term = format!(
+            "(mk_pair {} {} {})",
+            crate::coq::cstr(kind),
+            coq_case(stream, a.0, a.1, &oa, &None),
+            coq_case(stream, b.0, b.1, &ob, &None)
+        );
+        let n = a.0.types.len();
+        self.sizes[match n { 0..=3 => 0, 4..=10 => 1, 11..=30 => 2, 31..=100 => 3, _ => 4 }] += 1;
+        *self.kinds.entry(format!("{}/{}", oa.gen.kind(), ob.gen.kind())).or_insert(0) += 1;
+        let ra = serde_json::to_value(a.0).unwrap();
+        let rb = serde_json::to_value(b.0).unwrap();
+        let key = format!("{}|{}|{}|{}|{}", kind, ra, serde_json::to_string(a.1).unwrap(), rb, serde_json::to_string(b.1).unwrap());
+        if self.seen.insert(key) && item_paths(a.0).len() >= 1 {
+            self.nontrivial += 1;
+        }
+        let small = n <= 12;
+        let input = json!({"pair_kind": kind, "a": {"registry": ra, "settings": a.1}, "b": {"registry": rb, "settings": b.1}});
+        let j = if small {
+            json!({"stream": stream, "input": input,
+                   "observed_a": oa.gen.json(|t| json!(t.join(" "))), "observed_b": ob.gen.json(|t| json!(t.join(" ")))})
+        } else {
+            json!({"stream": stream, "input": input, "observed_kinds": [oa.gen.kind(), ob.gen.kind()]})
         };
         let i = self.shards.push(term, j.clone());
         self.meta.count(stream);
@@ -280,11 +385,26 @@ pub fn random_cases(ctx: &mut Ctx, rng: &mut Rng, n: usize, gcfg: &GenCfg, scfg:
 
 pub fn generate(prop: &str, tier: &str, seed: u64, out: &Path, nshards: usize, replay: Option<&Path>) -> Meta {
     let evals: Vec<(&str, &str)> = crate::tgprops::evals(prop);
-    let mut ctx = Ctx::new(prop, out, nshards, &evals);
+    let pair = crate::tgprops::is_pair(prop);
+    let mut ctx = Ctx::new(prop, out, nshards, &evals, pair);
     let mut rng = Rng::new(seed ^ 0x7467);
     if let Some(p) = replay {
-        let (rj, spec) = replay_input(p);
-        ctx.push("replay", &rj, &spec);
+        let v: Value = serde_json::from_str(&std::fs::read_to_string(p).unwrap()).unwrap();
+        let input = if v.get("input").is_some() { v["input"].clone() } else { v };
+        if pair {
+            let ra = reggen::to_registry(&input["a"]["registry"]);
+            let rb = reggen::to_registry(&input["b"]["registry"]);
+            let sa: SettingsSpec = serde_json::from_value(input["a"]["settings"].clone()).unwrap();
+            let sb: SettingsSpec = serde_json::from_value(input["b"]["settings"].clone()).unwrap();
+            ctx.push_pair("replay", input["pair_kind"].as_str().unwrap_or("same"), (&ra, &sa), (&rb, &sb));
+        } else {
+            let spec: SettingsSpec = serde_json::from_value(input["settings"].clone()).unwrap();
+            let reg = reggen::to_registry(&input["registry"]);
+            let expect = input.get("expect").and_then(|e| if e.is_null() { None } else {
+                Some((e["kind"].as_str().unwrap().to_string(),
+                      e["nums"].as_array().unwrap().iter().map(|x| x.as_u64().unwrap() as u128).collect::<Vec<_>>())) });
+            ctx.push_full("replay", &reg, Some(&input["registry"]), &spec, expect);
+        }
         return ctx.finish("replay of one recorded input");
     }
     crate::tgprops::cases(prop, tier, &mut ctx, &mut rng);
